@@ -17,6 +17,7 @@ type genOpts struct {
 	NoNaN      bool // no NaN anywhere (sort keys)
 	SmallLists bool // lists of at most 5 elements, no long byte strings
 	NoHuge     bool // no 70 KiB strings / 1025-element lists
+	SingleEntryMaps bool // maps hold at most one entry (stream-level comparisons)
 }
 
 type fieldPlan struct {
@@ -180,6 +181,9 @@ func (g *rowGen) fill(v reflect.Value, tag, path string, row, depth int, top boo
 			return
 		}
 		n := gen.Pick(r, []int{1, 1, 2, 3, 4, 8})
+		if g.o.SingleEntryMaps {
+			n = 1
+		}
 		m := reflect.MakeMapWithSize(t, n)
 		for i := 0; i < n; i++ {
 			k := reflect.New(t.Key()).Elem()
